@@ -53,9 +53,14 @@ func refValid(s string) (valid bool, specified bool) {
 		if unicode.IsTitle(r) {
 			return false, false
 		}
-		// letters that are upper case but have no lower-case mapping, or
-		// non-upper letters that ToLower changes, are outside what the
-		// statement pins down ("upper-case letters" vs the code's ToLower test)
+		// upper-case for sure: category Lu or Unicode property Other_Uppercase
+		// (Roman numerals, circled capitals) AND a simple lower-case mapping exists.
+		// Letters that are upper case without a lower-case mapping, or that
+		// ToLower changes without being upper case, are outside what the statement
+		// pins down ("upper-case letters" vs the code's ToLower test).
+		if isUpperForSure(r) {
+			continue
+		}
 		if unicode.IsUpper(r) != (unicode.ToLower(r) != r) {
 			return false, false
 		}
@@ -67,11 +72,15 @@ func refValid(s string) (valid bool, specified bool) {
 		return false, true
 	}
 	for _, r := range s {
-		if unicode.IsUpper(r) {
+		if unicode.IsUpper(r) || isUpperForSure(r) {
 			return false, true
 		}
 	}
 	return true, true
+}
+
+func isUpperForSure(r rune) bool {
+	return (unicode.IsUpper(r) || unicode.Is(unicode.Other_Uppercase, r)) && unicode.ToLower(r) != r
 }
 
 func eqStrs(a, b []string) bool {
@@ -92,7 +101,18 @@ type CoversCase struct {
 	A, B, C string
 }
 
-var segAlphabet = []string{"a", "b", "ab", "foo", "foobar", "é", "1", "a-b", ""}
+// the last six are lower-case letters that are related by Unicode case FOLDING only (σ/ς, µ/μ, ſ/s): distinct segments
+var segAlphabet = []string{"a", "b", "ab", "foo", "foobar", "é", "1", "a-b", "", "σ", "ς", "µ", "μ", "ſ", "s"}
+
+var nonEmptySegs = func() []string {
+	var out []string
+	for _, s := range segAlphabet {
+		if s != "" {
+			out = append(out, s)
+		}
+	}
+	return out
+}()
 
 func buildCmd(segs []string) (string, bool) {
 	if len(segs) == 0 {
@@ -124,14 +144,14 @@ func drawRelated(t *rapid.T, base string, label string) string {
 	case 0:
 		return base
 	case 1: // child
-		seg := rapid.SampledFrom(segAlphabet[:8]).Draw(t, label+"_seg")
+		seg := rapid.SampledFrom(nonEmptySegs).Draw(t, label+"_seg")
 		if base == "/" {
 			return "/" + seg
 		}
 		return base + "/" + seg
 	case 2: // textual extension without boundary
 		if base == "/" {
-			return "/" + rapid.SampledFrom(segAlphabet[:8]).Draw(t, label+"_seg")
+			return "/" + rapid.SampledFrom(nonEmptySegs).Draw(t, label+"_seg")
 		}
 		return base + rapid.SampledFrom([]string{"a", "bar", "1", "-b", "é"}).Draw(t, label+"_ext")
 	case 3: // parent
@@ -148,7 +168,7 @@ func drawRelated(t *rapid.T, base string, label string) string {
 		if base == "/" {
 			return "//a"
 		}
-		return base + "//" + rapid.SampledFrom(segAlphabet[:8]).Draw(t, label+"_seg")
+		return base + "//" + rapid.SampledFrom(nonEmptySegs).Draw(t, label+"_seg")
 	default:
 		return drawCmd(t, label)
 	}
@@ -231,7 +251,7 @@ func TestCoversExhaustive(t *testing.T) {
 	maxSeg := h.N(3, 4)
 	alpha := segAlphabet
 	if maxSeg == 4 {
-		alpha = []string{"a", "ab", "foo", "foobar", "é", ""}
+		alpha = []string{"a", "ab", "foo", "foobar", "é", "", "σ", "ς"}
 	}
 	var cmds []string
 	var rec func(prefix []string, depth int)
@@ -299,7 +319,7 @@ func TestCoversExhaustive(t *testing.T) {
 
 type ParseCase struct{ S string }
 
-var parseRunes = []rune{'/', '/', '/', 'a', 'b', 'z', 'A', 'Z', 'é', 'É', 'ß', 'ж', 'Ж', '1', '-', '_', ' ', '.', 'ほ', 'Σ', 'σ'}
+var parseRunes = []rune{'/', '/', '/', 'a', 'b', 'z', 'A', 'Z', 'é', 'É', 'ß', 'ж', 'Ж', '1', '-', '_', ' ', '.', 'ほ', 'Σ', 'σ', 'ς', 'Ⅰ', 'ⅰ', 'Ⓐ', 'ⓐ', 'ǅ', '𝐀', 'ſ', 'µ'}
 
 func runParse(c *h.Ctx, pc ParseCase) {
 	want, specified := refValid(pc.S)
@@ -392,7 +412,7 @@ var join = h.Define(P, "join", func(t *rapid.T) JoinCase {
 	n := rapid.IntRange(0, 4).Draw(t, "n")
 	segs := make([]string, n)
 	for i := range segs {
-		segs[i] = rapid.SampledFrom(segAlphabet[:8]).Draw(t, "seg")
+		segs[i] = rapid.SampledFrom(nonEmptySegs).Draw(t, "seg")
 	}
 	if n == 0 {
 		segs = nil
